@@ -54,6 +54,9 @@ WideIdx == { Struct("map", -1, "named", <<F(23, FALSE, -1, "u8"), F(24, TRUE, -1
              Struct("array", -1, "named", <<F(0, FALSE, -1, "u8"), F(30, TRUE, -1, "u8")>>) }
            \cup { Enum(e, -1, FALSE, <<Variant(23, e, -1, "unit", <<>>), Variant(24, e, -1, "tuple", <<F(0, FALSE, -1, "u8")>>), Variant(256, e, -1, "named", <<F(0, TRUE, -1, "u8")>>),
                                       Variant(70000, e, -1, "unit", <<>>)>>) : e \in Encs }
+\* tag numbers that need the 8-byte head (2^32, 2^64 - 1) at each level
+WideTags == { Struct(e, -2, "named", <<F(0, FALSE, -3, "u8"), F(1, TRUE, -2, "str")>>) : e \in Encs }
+            \cup { Enum(e, -2, FALSE, <<Variant(0, e, -3, "unit", <<>>), Variant(1, e, -2, "named", <<F(0, TRUE, -3, "u8")>>)>>) : e \in Encs }
 \* skipped fields, transparent newtypes
 Misc == { Struct(e, -1, "named", <<F(0, FALSE, -1, "u8"), FSkip(1), F(2, TRUE, -1, "str")>>) : e \in Encs }
         \cup { Transparent(F(0, FALSE, -1, ty)) : ty \in {"u8", "str", "inA", "e2", "cu", "bytes"} }
@@ -85,8 +88,8 @@ EnumsQ == { S \in EnumsF : (S.tag = 7 => S.variants[2].tag = -1) /\ (S.variants[
 Big(e) == Struct(e, -1, "named", [i \in 1..25 |-> F(i - 1, TRUE, -1, "u8")])
 BigVals == { [i \in 1..25 |-> IF i \in s THEN FV(TRUE, 7, <<>>, <<>>) ELSE None] : s \in {{}, {1}, {24}, {25}, {1, 25}, 1..23, 1..24, 1..25, 2..25} }
 
-Family == IF Tier = "quick" THEN { S \in OneFieldQ : S.fields[1].idx = 0 \/ S.fields[1].ty \in {"u8", "e2", "cu"} } \cup { S \in ThreeFieldsQ : S.shape = "named" } \cup Misc \cup WideIdx \cup EnumsQ \cup EnumsSame \cup OptSpell \cup Borrowing
-          ELSE OneFieldQ \cup ThreeFieldsQ \cup Misc \cup WideIdx \cup EnumsQ \cup EnumsSame \cup OptSpell \cup Borrowing
+Family == IF Tier = "quick" THEN { S \in OneFieldQ : S.fields[1].idx = 0 \/ S.fields[1].ty \in {"u8", "e2", "cu"} } \cup { S \in ThreeFieldsQ : S.shape = "named" } \cup Misc \cup WideIdx \cup WideTags \cup EnumsQ \cup EnumsSame \cup OptSpell \cup Borrowing
+          ELSE OneFieldQ \cup ThreeFieldsQ \cup Misc \cup WideIdx \cup WideTags \cup EnumsQ \cup EnumsSame \cup OptSpell \cup Borrowing
 
 \* ---- compatible changes (reader schemas derived from a writer schema) ----
 SetField(S, i, f) == [S EXCEPT !.fields[i] = f]
